@@ -188,6 +188,24 @@ new.append(entry("C15",
                  "Set / MarshalJSON / UnmarshalJSON of the address types (C14)"],
     explanation="Per role (bind, broadcast, listen, controller): a string of the form a.b.c.d:port is accepted with exactly that address and port iff the port satisfies the role's rule (bind: not 60000; broadcast, controller: not 0; listen: neither 0 nor 60000), a bare a.b.c.d gets the default port (0 / 60000 / 60000; rejected for listen), a string without a dotted quad is rejected; formatting an accepted address and parsing it again returns the same address and port (lemma functions over the parser contracts)."))
 
+
+new.append(entry("C14", level="other",
+    functions=["types.(HHmm).String", "types.HHmmFromString", "types.(HHmm).MarshalJSON", "types.(*HHmm).UnmarshalJSON", "types.(*ControlState).UnmarshalJSON",
+               "types.(Date).MarshalJSON", "types.(*Date).UnmarshalJSON", "types.ParseDate",
+               "types.lemmaTextHHmm", "types.lemmaJSONHHmm", "types.lemmaJSONControlState", "types.lemmaJSONDate"] +
+              ["types.Parse%sAddr" % r for r in ROLES] + ["types.lemma%sAddrText" % r for r in ROLES],
+    scope=[r"^types\."],
+    pinned_file="pins_types.json", pinned_labels=["contract", "macro"],
+    replay=[{"match": "HHmm", "driver": "types_text", "pkg": "types", "case": "hhmm"},
+            {"match": "types.", "driver": "types_text", "pkg": "types", "case": "all"}],
+    assumptions=["encoding/json on strings is an abstract quoting (spec/json.spec): json.Marshal of a Go string yields bytes that are a JSON string with that content, json.Unmarshal of such bytes into a *string yields the content; bytes that are not a JSON string give an error or an arbitrary string",
+                 "regular expressions of the form ^...$ with fixed-width digit groups are modelled exactly; strconv.Atoi of an all-digit string is its value; fmt.Sprintf(%02d:%02d) and time.Format(2006-01-02) yield the digit groups; time model as for C13"],
+    bounded=[],
+    not_decided=["Card, TimeProfile, Task, Weekdays, Segments (their UnmarshalJSON delegates to encoding/json's reflective struct/map decoding, which has no contract in the engine)",
+                 "DateTime JSON (zone abbreviation handling inside time.Parse), Version (fmt.Sscanf), MacAddress (net.ParseMAC), TaskType by name and CardFormat (case-folding regular-expression rewriting), PIN (variable-width decimal text), SystemTime text form",
+                 "JSON forms of the address types (the text round trip is decided: lemma<Role>AddrText)"],
+    explanation="Decided for the leaf types whose parser is repository code over a string: HH:mm (String/HHmmFromString and JSON: accepted exactly for dd:dd with hours <= 24, minutes <= 59, not 24:mm with mm != 0; everything else of that JSON-string form rejected; decode(encode(v)) == v), door control state JSON (exactly the three names; anything else rejected), Date JSON and text (blank <-> zero value, impossible dates rejected, civil value kept whenever the day exists in the zone), and the four address types' text forms. Level 'other': the property lists more types than contracts can reach."))
+
 ids = {e["id"] for e in new}
 out = [p for p in props if p["id"] not in ids] + new
 out.sort(key=lambda p: p["id"])
